@@ -24,6 +24,7 @@ import CaddyModel.C13.Lemmas
 import CaddyModel.C13.Witness
 import CaddyModel.C13.ListenLemmas
 import CaddyModel.C13.Caddyfile
+import CaddyModel.C13.UrlLemmas
 import CaddyModel.Gen.AdminGate
 import CaddyModel.Gen.Glue
 
@@ -204,6 +205,42 @@ theorem local_endpoint_rejects_foreign_origin (H : Bytes → Req → σ → σ) 
   · rintro ⟨hok, al, hal, hsch, hhost⟩
     have hal' : al ∈ allowedOrigins cfg.origins a := by simpa [newAdminHandler] using hal
     exact ho ⟨hok, al.scheme, hhost ▸ (mem_allowedOrigins_iff cfg a al).1 hal', hsch⟩
+
+/-- **origin gate on the header BYTES** (net/url inside the model): with origin enforcement on, a
+    request whose Origin header is the serialised origin `scheme://name:port` (scheme of letters;
+    name of letters, digits, `.`, `-`; decimal port) — parsed by the byte-level model of
+    `url.Parse` — reaches no handler and changes nothing unless `name:port` is the host of an
+    allowed origin.  (What a browser sends for a cross-site request is exactly of this form.) -/
+theorem origin_header_bytes_gate (H : Bytes → Req → σ → σ) (mux : Bytes → Bytes → Route) (h : Handler)
+    (idx : Index) (fuel : Nat) (r : Req) (s : σ) (sch name ds : Bytes)
+    (he : h.enforceOrigin = true)
+    (hsch : ∀ b ∈ sch, isAlphaB b = true) (hsne : sch ≠ [])
+    (hname : ∀ b ∈ name, nameByte b = true) (hnne : name ≠ []) (hd : ∀ b ∈ ds, isDigitB b = true)
+    (horigin : r.origin = sch ++ colon :: slash :: slash :: (name ++ colon :: ds))
+    (hparsed : r.originUrl = urlParse r.origin)
+    (hforeign : ∀ a ∈ h.allowed, a.host ≠ name ++ colon :: ds) :
+    Untouched (serveHTTP H mux h idx fuel r s) s := by
+  have hauth : ∀ b ∈ name ++ colon :: ds, b ≠ 35 ∧ b ≠ 63 ∧ b ≠ slash ∧ b ≠ 64 := by
+    intro b hb
+    rcases List.mem_append.1 hb with hb | hb
+    · have := name_ne (hname b hb); exact ⟨this.1, this.2.1, this.2.2.1, this.2.2.2.1⟩
+    · simp only [List.mem_cons] at hb
+      rcases hb with hb | hb
+      · subst hb; decide
+      · have := digit_ne (hd b hb)
+        refine ⟨?_, ?_, this.2.1, ?_⟩ <;> intro e <;> subst e <;> revert hb <;> intro hb <;>
+          exact absurd (hd _ hb) (by decide)
+  have hurl : getOrigin r = ⟨true, asciiLower sch, name ++ colon :: ds⟩ := by
+    have hne : r.origin ≠ [] := by rw [horigin]; cases sch with
+      | nil => exact absurd rfl hsne
+      | cons x xs => simp
+    unfold getOrigin
+    rw [if_neg hne, hparsed, horigin, urlParse_scheme_authority sch _ hsch hsne hauth,
+      parseHost_name_port name ds hname hnne hd]
+  apply origin_gate H mux h idx fuel r s he
+  rintro ⟨_, a, ha, _, hhost⟩
+  rw [hurl] at hhost
+  exact hforeign a ha hhost
 
 /-- **missing origin** (handler level, full strength since the `checkOrigin` fix): with origin
     enforcement on, a request that carries neither an Origin nor a Referer header reaches no
@@ -537,6 +574,16 @@ example : gate (newAdminHandler exCfg exAddr false exPats) exCsrf = .refuse .ori
 -- cors_only_for_allowed_origin: the served request above carries the header, an OPTIONS preflight all of them
 example : (serveReal count (newAdminHandler exCfg exAddr false exPats) exIdx 3 exGood 0).cors = 1 ∧
     (serveReal count (newAdminHandler exCfg exAddr false exPats) exIdx 3 { exGood with method := sOPTIONS } 0).cors = 2 := by decide
+-- origin_header_bytes_gate: Origin: http://evil.com:8080 — and the model of url.Parse on the usual suspects
+example : urlParse (str "http://evil.com:8080") = ⟨true, str "http", str "evil.com:8080"⟩
+    ∧ urlParse (str "HTTPS://localhost:2019/p?q#f") = ⟨true, str "https", str "localhost:2019"⟩
+    ∧ urlParse (str "http://user@localhost:2019@evil.com") = ⟨true, str "http", str "evil.com"⟩
+    ∧ urlParse (str "http://[::1]:2019") = ⟨true, str "http", str "[::1]:2019"⟩
+    ∧ urlParse (str "localhost:2019") = ⟨true, str "localhost", []⟩
+    ∧ urlParse (str "null") = ⟨true, [], []⟩ ∧ urlParse [] = ⟨true, [], []⟩
+    ∧ urlParse (str "//example.com") = ⟨true, [], str "example.com"⟩
+    ∧ (urlParse (str "http://localhost:2019.evil.com")).ok = false
+    ∧ (urlParse (str "http://[::1")).ok = false ∧ (urlParse (str "1.2.3.4:80")).ok = false := by decide
 -- missing_origin_gate / origin_missing_refused: the request has no Origin; also with the empty-host origin configured
 def exNoOrigin : Req := { exGood with origin := [], originUrl := emptyUrl }
 example : exCfg.enforceOrigin = true ∧ OriginMissing exNoOrigin ∧
